@@ -52,7 +52,8 @@ theorem flagged_calls {s : Simp} (hs : SimpSound s) {o : Oracle} (ho : OracleSou
     (hcodes : ∀ a, w.codeOf a = codeOf codes a)
     (hcb : ∀ a prog, codeOf codes a = some prog → ∀ b ∈ prog, b < 256)
     (hz : ∀ a, Modelled codes this a → C01.ZeroStorage w a)
-    (I : Interp) (hI : I.Std) (f0 : Evm.Frame)
+    (I : Interp) (hI : I.Std) (hbal : cfg.balances = true → BalHyp I cfg w)
+    (hbound : cfg.balances = true → BalBound w) (f0 : Evm.Frame)
     (hR0 : R I env ((codeOf codes this).getD []) p initState f0) (hthis : f0.this = this) (hd0 : f0.depth = 0)
     (n : Nat) (w' : Evm.World) (h : Evm.Halt) (hex : Evm.exec p n w f0 = some (w', h))
     (hb : (runC s o cfg env codes this fuel).boundedLoops = [])
@@ -62,8 +63,9 @@ theorem flagged_calls {s : Simp} (hs : SimpSound s) {o : Oracle} (ho : OracleSou
       (∀ r, ce.e.out ≠ .stuck r) ∧ ce.e.tag = .normal) :
     ∃ ce ∈ (runC s o cfg env codes this fuel).ends, Sat I ce.e.st.path ∧ ce.e.tag = .normal ∧
       (∃ h0, ce.e.out = .halt h0 ∧ haltWith h0 (ce.e.data.map (·.eval I)) = h) ∧
-      WRelM I (Modelled codes this) w w' (stoOf ce.stores) (evalLogs I ce.logs) := by
-  rcases C02.complete_calls hs ho cfg env codes this fuel p w hmem hdep hcodes hcb hz I hI f0 hR0 hthis hd0 n w' h hex
+      WRelM I (Modelled codes this) w w' (stoOf ce.stores) (evalLogs I ce.logs) (balSem I w ce.bal) := by
+  rcases C02.complete_calls hs ho cfg env codes this fuel p w hmem hdep hcodes hcb hz I hI hbal hbound f0 hR0 hthis hd0
+      n w' h hex
     with ⟨ce, hm, hsat, hc⟩ | hb' | hd' | hf'
   · obtain ⟨hns, htag⟩ := herr ce hm hsat
     rcases hc with ⟨h0, ho', hw, _, hW⟩ | ⟨r, hr⟩ | ht
